@@ -828,11 +828,21 @@ func runC19(c *CaseCtx) (res CaseResult) {
 	// churn (1 case in 24): a large graph is built, views are taken, and
 	// then most of it is removed again through ONE handle (dozens of
 	// removals while the views are held), followed by mixed operations
-	churn := c.Idx%24 == 5
+	// (the big variant is chosen by a modulus that is coprime with the worker
+	// stride, so that these long cases spread over all workers)
+	bigChurn := c.Idx%251 == 17
+	churn := c.Idx%24 == 5 || bigChurn
 	buildEnd, removeEnd, remH := 0, 0, 0
 	if churn {
 		nv = 36 + r.Intn(30)
 		buildEnd = 2 * nv
+		if bigChurn {
+			// a BIG churn history: 70-130 vertices, most of them present
+			// when the views and the copy are taken
+			nv = 70 + c.Idx%61
+			buildEnd = 5 * nv
+			res.obs("big_churn_cases", 1)
+		}
 		removeEnd = buildEnd + 3 + nv - 3
 		nops = removeEnd + 20 + r.Intn(40)
 		res.obs("churn_cases", 1)
@@ -1498,6 +1508,14 @@ func runC18History(c *CaseCtx, r *rand.Rand) (res CaseResult) {
 	nops := 4 + r.Intn(16)
 	searches := 0
 	for k := 0; k < nops; k++ {
+		if c.Idx%3 == 1 && k == nops/2 {
+			// halfway through, the history moves on to a COPY of the graph
+			// (and a view of the copy): same content, its own state
+			g = g.Copy()
+			rv = g.Reverse()
+			trace = append(trace, "continue-on-a-copy")
+			res.obs("histories_continued_on_a_copy", 1)
+		}
 		switch op := r.Intn(6); {
 		case op <= 2: // search through the graph, the kept view, or a fresh view
 			src := r.Intn(n)
